@@ -676,11 +676,15 @@ impl Memory {
     }
 
     pub fn get_module_of_global(&self, name: &str) -> Vec<String> {
+        let mut module_names: Vec<String> =
         self.modules
             .iter()
             .filter(|(_, module)| module.borrow().definitions.contains_key(name))
             .map(|(module_name, _)| module_name.clone())
-            .collect()
+            .collect();
+        // the iteration order of a hash map differs from run to run
+        module_names.sort();
+        module_names
     }
 
     pub fn define_global(&mut self, name: &str, value: GcRef) {
@@ -708,6 +712,8 @@ impl Memory {
                 Ok(result)
             }
             else {
+                // the iteration order of a hash map differs from run to run
+                colliding_modules.sort();
                 Err(ModulError::AmbiguousName(colliding_modules))
             }
         }
